@@ -185,19 +185,49 @@ UdpPool == UdpCore
   \cup { El("rtcp", t, k, c, -1) : t \in {"v", "a"}, k \in {"rr", "srlong", "bye"}, c \in {"v", "a"} }
   \cup { El("rtcp_seq", t, k, D, -1) : t \in {"v", "a"}, k \in {"dup", "old", "none", "wrap"} }
 
+\* GB28181 over TCP (surface "pst"): the real PubSession of start_rtp_pub with is_tcp_flag = 1 on a real ServerManager,
+\* real loopback connections.  Data elements go to the newest connection (one is opened if there is none):
+\*   u    a PS element (kind a, variant b; a = "good": a whole well-formed unit) in an RTP packet with header class c
+\*        (n cuts the packet), carried in a frame of exactly that length
+\*   len  the declared length against what follows: 0 / 1 / 11 (shorter than an RTP header) / more than follows before
+\*        the peer closes (over_close) or falls silent (over_idle) / 65535 with all of it (max_full) or little of it and
+\*        silence (max_idle) / half a length field, then close or silence
+\*   wr   two frames in one write, the boundary inside a length field, one byte per write, three pieces, a burst of 50
+\*   conn open (a further connection; lal closes the one before) / quiet (the same without waiting for lal to accept) /
+\*        empty (connect, say nothing, close) / storm (three of those) / close / reset / half (shutdown of the sending side) /
+\*        handover (the newest connection has just sent a 65535-byte frame full of pictures when a further connection
+\*        arrives with the same: lal is still at work on the first one's frame)
+\*   old  frames on the FIRST connection of the scenario, whatever has been opened since
+\*   api  kick_session of the session, of another id; a second start_rtp_pub for the stream name (tcp / udp); one tick
+\* cfg: pre = what happened before the first element (none: no connection was ever accepted / conn: one is open /
+\* good: one is open and has carried well-formed units), to = liveness timeout of the session in seconds (0 = none)
+PstLens == {"zero", "one", "eleven", "over_close", "over_idle", "max_full", "max_idle", "half_close", "half_idle"}
+PstCore == { El("conn", "open", D, D, -1), El("conn", "close", D, D, -1), El("u", "good", "ok", "ok", -1),
+             El("len", "max_idle", D, D, -1), El("api", "tick", D, D, -1) }
+PstPool == PstCore
+  \cup { El("len", a, D, D, -1) : a \in PstLens }
+  \cup UNION { { El("u", k, v, "ok", -1) : v \in PsVariants[k] } : k \in DOMAIN PsVariants }
+  \cup { El("u", "pesv", "ok", h, -1) : h \in Hdrs \ {"ok"} }
+  \cup { El("u", "good", "ok", "cut", n) : n \in 0..13 }
+  \cup { El("wr", a, D, D, -1) : a \in {"two", "two_split", "split1", "split3", "many"} }
+  \cup { El("conn", a, D, D, -1) : a \in {"open", "quiet", "empty", "storm", "close", "reset", "half", "handover"} }
+  \cup { El("old", a, D, D, -1) : a \in {"good", "zero", "max_idle", "garbage"} }
+  \cup { El("api", a, D, D, -1) : a \in {"kick", "kick_other", "start2", "start2_udp", "tick"} }
+
 Cfgs == CASE Surf = "rtp" -> { [vc |-> v, ac |-> "aac", sub |-> s, rate |-> "ok"] : v \in {"avc", "hevc"}, s \in {"n", "y"} }
                            \cup { [vc |-> v, ac |-> "aac", sub |-> "n", rate |-> r] : v \in {"avc", "hevc"}, r \in {"0", "1", "999"} }   \* SDP clock rate class of both tracks
           [] Surf = "psq" -> { [pre |-> p] : p \in {"none", "good"} }
           [] Surf = "udp" -> { [sdp |-> x[1], setup |-> x[2]] : x \in {<<"va", "va">>, <<"va", "v">>, <<"va", "a">>, <<"v", "v">>, <<"a", "a">>} }
           [] Surf = "ps" -> { [pre |-> p] : p \in {"none", "good"} }
+          [] Surf = "pst" -> { [pre |-> p, to |-> t] : p \in {"none", "conn", "good"}, t \in {"0", "1"} }
           [] Surf = "client" -> { [proto |-> p, sdp |-> "good"] : p \in {"rtmp_pull", "rtmp_push", "rtsp_tcp", "rtsp_udp", "flv_pull"} }
                                 \cup { [proto |-> "rtsp_tcp", sdp |-> x] : x \in SdpClasses }
           [] OTHER -> { [x |-> D] }
 Core == CASE Surf = "rtsp" -> RtspCore [] Surf = "ws" -> WsCore [] Surf = "rtp" -> RtpCore(cfg) [] Surf = "ps" -> PsCore
-          [] Surf = "http" -> HttpCore [] Surf = "psq" -> PsqCore [] Surf = "udp" -> UdpCore [] OTHER -> {}
+          [] Surf = "http" -> HttpCore [] Surf = "psq" -> PsqCore [] Surf = "udp" -> UdpCore [] Surf = "pst" -> PstCore [] OTHER -> {}
 Pool == CASE Surf = "rtsp" -> RtspPool [] Surf = "ws" -> WsPool [] Surf = "rtp" -> RtpPool(cfg) [] Surf = "ps" -> PsPool
           [] Surf = "http" -> HttpPool [] Surf = "client" -> ClientPool(cfg) \cup ClientAfter(cfg)
-          [] Surf = "psq" -> (IF seq = <<>> THEN PsqFirst ELSE PsqPool) [] Surf = "udp" -> UdpPool [] OTHER -> {}
+          [] Surf = "psq" -> (IF seq = <<>> THEN PsqFirst ELSE PsqPool) [] Surf = "udp" -> UdpPool [] Surf = "pst" -> PstPool [] OTHER -> {}
 \* does the sequence go on after element e?  client: only along the valid exchange, then through ClientAfter
 Continues(e) ==
   CASE Surf = "sdp" -> TRUE
@@ -225,7 +255,7 @@ Spec == Init /\ [][Next]_vars
 
 \* totality: every (state, element) has a defined expectation that never admits a crash, and what the
 \* specification expects can be observed (the allowed set is not empty)
-Witness(x, stays) == [codes |-> (IF x = "ok" THEN <<200>> ELSE IF x = "okmedia" THEN <<200, 200, 200>> ELSE IF x = "ws101" THEN <<101>> ELSE <<>>), alive |-> stays, panic |-> FALSE, note |-> ""]
+Witness(x, stays) == [codes |-> (IF x = "ok" THEN <<200>> ELSE IF x = "okmedia" THEN <<200, 200, 200>> ELSE IF x = "ws101" THEN <<101>> ELSE IF x = "refused" THEN <<2003>> ELSE <<>>), alive |-> stays, panic |-> FALSE, note |-> ""]
 Total == act.name = "Send" => /\ act.exp \in Kinds
                               /\ Allowed(act.exp, Witness(act.exp, act.stays))
                               /\ ~Allowed(act.exp, [Witness(act.exp, act.stays) EXCEPT !.panic = TRUE])
